@@ -8,14 +8,15 @@ from pydicom.dataset import Dataset, FileMetaDataset
 from pydicom.uid import ImplicitVRLittleEndian
 from pynetdicom import AE, evt, build_role
 from pynetdicom.sop_class import (Verification, CTImageStorage, PatientRootQueryRetrieveInformationModelFind as FIND,
-                                  PatientRootQueryRetrieveInformationModelGet as GET, Printer)
+                                  PatientRootQueryRetrieveInformationModelGet as GET, Printer,
+                                  GeneralRelevantPatientInformationQuery as RELPAT)
 
 logging.disable(logging.CRITICAL)
 
 
 def run(event, handler, scu):
     ae = AE()
-    for cx in (Verification, FIND, GET, Printer):
+    for cx in (Verification, FIND, GET, Printer, RELPAT):
         ae.add_supported_context(cx)
     ae.add_supported_context(CTImageStorage, scu_role=True, scp_role=True)
     ae.dimse_timeout = ae.acse_timeout = ae.network_timeout = 3
@@ -29,7 +30,8 @@ def run(event, handler, scu):
             seen.append({kw: getattr(cs, kw) for kw in (
                 "MessageIDBeingRespondedTo", "Status", "ErrorComment", "NumberOfRemainingSuboperations",
                 "NumberOfCompletedSuboperations", "NumberOfFailedSuboperations", "NumberOfWarningSuboperations") if kw in cs})
-    for cx in (Verification, FIND, GET, Printer, CTImageStorage):
+            seen[-1]["data_set_bytes"] = len(m.data_set.getvalue()) if m.data_set else 0
+    for cx in (Verification, FIND, GET, Printer, RELPAT, CTImageStorage):
         ae.add_requested_context(cx)
     assoc = ae.associate("127.0.0.1", srv.server_address[1], ext_neg=[build_role(CTImageStorage, scp_role=True)],
                          evt_handlers=[(evt.EVT_DIMSE_RECV, on_rsp), (evt.EVT_C_STORE, lambda e: 0x0000)])
@@ -92,3 +94,13 @@ def h5(e):
 
 
 run(evt.EVT_C_GET, h5, lambda a: list(a.send_c_get(ident(), GET, msg_id=9)))
+
+print("6. Relevant Patient Information Query: the final Success response still carries the Identifier (and status elements) of the Pending one")
+
+
+def h6(e):
+    st = Dataset(); st.Status = 0xFF00; st.ErrorComment = "only for the match"
+    yield st, ident()
+
+
+run(evt.EVT_C_FIND, h6, lambda a: list(a.send_c_find(ident(), RELPAT, msg_id=10)))
